@@ -177,11 +177,12 @@ class MinGenSet():
                 var_type="integer"
             )
 
+        # pi = x * g can reach max_multiplicity * total (input numbers may exceed total when max_multiplicity > 1)
         self.pi_vars = self.solver.add_variables(
             self.x_indexes, 
             name_prefix="pi", 
             lb=0, 
-            ub=self.total, 
+            ub=self.total * self.max_multiplicity, 
             var_type="integer" if self.weight_type == int else "continuous"
         )
 
@@ -218,7 +219,8 @@ class MinGenSet():
                             continuous_var=self.genset_vars[(i)],
                             product_var=self.pi_vars[(i, j)],
                             lb=0,
-                            ub=self.total,
+                            # the helper derives the number of bits of the integer factor from ub
+                            ub=max(self.total, self.max_multiplicity),
                             name=f"pi_i={i}_j={j}",
                         )
 
